@@ -98,15 +98,11 @@ def __setitem__(self, indx, arg):
 
     self.require_writable()
 
-    # Handle indexing of a shapeless object, and indices consistent with
-    # shapeless indexing
-    try:
+    # Handle indexing of a shapeless object
+    if self._shape_ == ():
         (masked, size_zero,
          shape_before, shape_after) = self._prep_scalar_index(indx)
-    except IndexError:
-        if self._shape_ == ():
-            raise
-    else:
+
         if masked or size_zero:
             return
 
@@ -119,12 +115,19 @@ def __setitem__(self, indx, arg):
         if arg._denom_ != self._denom_:
             Qube._raise_incompatible_denoms('[]', self, arg)
 
-        # Shapes need to match
-        if shape_after:
-            arg = arg.reshape(arg._shape_[:-len(shape_after)])
-                # raises ValueError if the reshape fails
+        # The value must broadcast to the shape this index would read, which
+        # consists of unit axes only
+        new_shape = shape_before + shape_after
+        if len(arg._shape_) > len(new_shape):
+            raise ValueError('shape mismatch in %s item assignment: %s cannot '
+                             'be broadcast to %s'
+                             % (type(self).__name__, arg._shape_, new_shape))
 
-        arg = arg.broadcast_to(self._shape_, recursive=True, _protected=False)
+        arg = arg.broadcast_to(new_shape, recursive=True, _protected=False)
+                # raises ValueError if the broadcast fails
+        if new_shape:
+            arg = arg[len(new_shape) * (0,)]
+
         arg = arg.copy(recursive=True)
 
         self._values_ = arg._values_
@@ -152,6 +155,10 @@ def __setitem__(self, indx, arg):
 
     # If index is fully masked, we're done
     if np.all(post_mask):
+        return
+
+    # If the index selects nothing, as False does, we're done
+    if np.broadcast_to(False, self._shape_)[pre_index].size == 0:
         return
 
     # Convert the argument to this type
